@@ -5,7 +5,7 @@
 (* initial configuration and the probe are constants of the configuration. *)
 (***************************************************************************)
 EXTENDS CoNode, Json, SequencesExt
-CONSTANTS Letters, HbInit, HcInit, ProbeLetters, Walk, WalkLen, EvCap
+CONSTANTS Letters, HbInit, HcInit, ProbeLetters, Walk, WalkLen, EvCap, PoolN
 VARIABLES n, hist, prev, gh
 vars == <<n, hist, prev, gh>>
 \* gh: ghost bookkeeping for the invariants:
@@ -34,6 +34,10 @@ Apply(nn, l) ==
     [] l[1] = "hbev"   -> [ev |-> <<"hb_events", l[2]>>, r |-> GetHbEvents(nn, l[2])]
     [] l[1] = "hblast" -> [ev |-> <<"hb_last", l[2]>>, r |-> LastHbState(nn, l[2])]
     [] l[1] = "apihb"  -> [ev |-> <<"wr16", 4119, 0, l[2] % 256, l[2] \div 256>>, r |-> R(HbWrite(nn, l[2]), << <<"ok">> >>)]
+    [] l[1] = "apptmr" -> IF \E k \in 1..Len(nn.app) : nn.app[k].h = l[2]            \* handle still alive: nothing to create
+                          THEN [ev |-> <<"nmt_get">>, r |-> R(nn, << <<"ret", nn.mode>> >>)]
+                          ELSE [ev |-> <<"tmr_create", l[2], l[3], l[4]>>, r |-> R(AppCreate(nn, l[2], l[3], l[4]), << <<"ret", 0>> >>)]
+    [] l[1] = "pool"   -> [ev |-> <<"pool">>, r |-> R(nn, << <<"acts", PoolN - Armed(nn)>> >>)]
     [] l[1] = "getmode" -> [ev |-> <<"nmt_get">>, r |-> R(nn, << <<"ret", nn.mode>> >>)]
 
 View == n
@@ -72,15 +76,22 @@ C11Ok(n0, l, r) ==
   /\ \A k \in 1..Len(r.n.hc) : r.n.hc[k].rem > 0 => r.n.hc[k].on
   /\ \A j, k \in 1..Len(r.n.hc) : (j # k /\ r.n.hc[j].on /\ r.n.hc[k].on) => r.n.hc[j].node # r.n.hc[k].node
 
+\* C20 on the reference: directly after a reset the communication state equals that of a node that was
+\* freshly initialised and started with the current dictionary values (1017h, 1016h), application
+\* bytes and application timers untouched
+FreshFrom(n0) == LET f == Bootup(Node0(n0.hbT, [k \in 1..Len(n0.hc) |-> <<n0.hc[k].node, n0.hc[k].time>>])).n IN
+                 [f EXCEPT !.v8 = n0.v8, !.r8 = n0.r8, !.app = n0.app]
+C20Ok(n0, l, r) == (l[1] = "nmt" /\ l[2] \in {129, 130} /\ l[3] \in {0, NodeId} /\ NmtOK(n0.mode)) => r.n = FreshFrom(n0)
 Do(l) == LET a == Apply(n, l) IN
          /\ n' = a.r.n
-         /\ gh' = [c09 |-> C09Ok(n, l, a.r), c10 |-> C10Ok(n, l, a.r), c11 |-> C11Ok(n, l, a.r)]
+         /\ gh' = [c09 |-> C09Ok(n, l, a.r), c10 |-> C10Ok(n, l, a.r), c11 |-> C11Ok(n, l, a.r), c20 |-> C20Ok(n, l, a.r)]
          /\ Rec(StepRec(a.ev, a.r.out))
 Init == /\ n = Bootup(Node0(HbInit, HcInit)).n
-        /\ hist = <<>> /\ prev = <<>> /\ gh = [c09 |-> TRUE, c10 |-> TRUE, c11 |-> TRUE]
+        /\ hist = <<>> /\ prev = <<>> /\ gh = [c09 |-> TRUE, c10 |-> TRUE, c11 |-> TRUE, c20 |-> TRUE]
 Next == \E l \in Letters : Do(l)
 \* the event counter only matters up to saturation: bound it in exhaustive runs
 Bound == \A k \in 1..Len(n.hc) : n.hc[k].ev <= EvCap
+InvC20 == gh.c20
 InvC09 == gh.c09
 InvC10 == gh.c10
 InvC11 == gh.c11
